@@ -75,6 +75,7 @@ def harness(st, op, nbits, nchans, nfiles, none):
             rec.viol.append((f"in-range-request-raised-{rec.err}", z3.BoolVal(True)))
             return rec
         kc = st["kc"]["kc"]
+        rec.ts = ts
         for nm, c in kc.pre:
             rec.viol.append((f"kernel-precondition: {nm}", z3.Not(c)))
         if op in ("collapse", "read_chan", "dedisperse"):
